@@ -37,6 +37,10 @@ def fresh_like(st, v, base):
     if isinstance(v, VReal):
         r, c = xr_fresh(base)
         return st.assume(c), r
+    from . import npalg
+    if isinstance(v, npalg.VNp):
+        # an opaque array / expression held in a local variable that the loop body assigns: unknown in the arbitrary iteration
+        return st, npalg.VNp(fresh("np:" + base, npalg.NP))
     return st, v
 
 
